@@ -45,6 +45,10 @@ func zzStubListenKcp(address string) (net.Listener, error) {
 // gets its own copy).
 func VerifC05Listeners() {
 	cfg := &v1.ServerConfig{BindAddr: "0.0.0.0", BindPort: 7000, ProxyBindAddr: "0.0.0.0"}
+	splitAddrs := zzverif.Bool("proxiesBindAnotherAddress")
+	if splitAddrs {
+		cfg.BindAddr, cfg.ProxyBindAddr = "10.0.0.1", "10.0.0.2"
+	}
 	cfg.AllowPorts = []types.PortsRange{{Start: 1000, End: 1001}} // (an empty list seeds 65535 ports twice: irrelevant here)
 	hasCA := zzverif.Bool("trustedCA")
 	if hasCA {
@@ -73,6 +77,13 @@ func VerifC05Listeners() {
 	if err != nil {
 		return
 	}
+	// ports are probed where the proxies will bind them, per network
+	tn, ta := svr.rc.TCPPortManager.ZZProbe()
+	un, ua := svr.rc.UDPPortManager.ZZProbe()
+	zzverif.Assert(tn == "tcp" && un == "udp" && ta == cfg.ProxyBindAddr && ua == cfg.ProxyBindAddr, "C09.listeners.port-availability-probed-on-the-address-proxies-bind")
+	if splitAddrs {
+		zzverif.Reach("C09.listeners.split-addresses")
+	}
 	if hasCA {
 		zzverif.Assert(cfg.Transport.TLS.Force, "C05.listeners.ca-forces-tls")
 		zzverif.Assert(svr.tlsConfig.ClientAuth == tls.RequireAndVerifyClientCert && svr.tlsConfig.ClientCAs == zzTLS.pool && zzTLS.pool != nil, "C05.listeners.tcp-requires-verified-client-cert")
@@ -90,7 +101,7 @@ func VerifC05Listeners() {
 	// the shared port: a TLS ClientHello belongs to the https vhost when that shares the port,
 	// to the control channel otherwise; the frp TLS marker byte always to the control channel
 	hello := []byte{0x16, 0x03, 0x01, 0x00, 0x05}
-	if sharedHTTPS {
+	if sharedHTTPS && !splitAddrs { // (same port on another address is another socket: nothing is shared)
 		zzverif.Assert(svr.rc.VhostHTTPSMuxer != nil, "C06.listeners.https-vhost-on-the-shared-port")
 		zzverif.Assert(zzMuxRoute(hello) != nil && zzMuxRoute(hello) != svr.tlsListener, "C06.listeners.client-hello-on-the-shared-port-goes-to-the-https-vhost")
 		zzverif.Reach("C06.listeners.shared-https")
